@@ -13,7 +13,7 @@ PID = 'C11'
 INVS = ['Additive', 'OneValuePerRow', 'DistinctNames', 'MultiValueRule', 'OneSidedRule', 'TwoSidedRule', 'TargetControlIsLabel']
 CONTROLS = ['CONTROL-constant0', 'CONTROL-gaussian', 'CONTROL-uniform', 'CONTROL-random-binary', 'CONTROL-random-card100', 'CONTROL-random-card2k',
             'CONTROL-random-card10k', 'CONTROL-random-card50k', 'CONTROL-int-sequence']
-BASE = {'lab': 'label', 'M': 'm', 'A': 'fa', 'B': 'fb'}
+BASE = {'lab': 'label', 'M': 'm', 'A': 'fa', 'B': 'fb', 'C': 'fc'}
 
 
 def rname(t):
@@ -45,12 +45,12 @@ def canon(p):
     return [seen.setdefault(repr(v), len(seen)) for v in p]
 
 
-def run_config(V, rng, tier, run_label, MV, AV, BV, flagsets):
+def run_config(V, rng, tier, run_label, MV, AV, BV, CV, MAPS, flagsets):
     q = tier == 'quick'
     wd = E.workdir('c11')
     try:
-        mc = E.write_mc(wd, 'FeatureConstruction', {'MC_Flags': '{' + ', '.join(flagsets) + '}'})
-        C = {'NRows': 3, 'MVals': MV, 'AVals': AV, 'BVals': BV,
+        mc = E.write_mc(wd, 'FeatureConstruction', {'MC_Flags': '{' + ', '.join(flagsets) + '}', 'MC_SubMaps': MAPS})
+        C = {'NRows': 3, 'MVals': MV, 'AVals': AV, 'BVals': BV, 'CVals': CV, 'SubMaps': '<- MC_SubMaps',
              'FlagSets': '<- MC_Flags', 'MissingTokens': '{""}', 'NControls': 9}
         cfg = E.write_cfg(os.path.join(wd, 'mc.cfg'), constants=C, invariants=INVS + ['Emit'])
         res = E.run_tlc(mc, cfg, timeout=2400, coverage=(q and run_label == 'plain'))
@@ -61,13 +61,13 @@ def run_config(V, rng, tier, run_label, MV, AV, BV, flagsets):
             for a in ('Expand', 'Sub', 'Interact', 'Noise'):
                 if res.coverage.get(a, (0, 0))[0] == 0:
                     raise E.MachineryError(f'action {a} never taken')
-        cases = [(set(t[1]), t[2], t[3]) for t in E.extract_tuples(res.stdout, 'CASE')]
+        cases = [(set(t[1]), t[3], t[4], [tuple(e) for e in t[2]]) for t in E.extract_tuples(res.stdout, 'CASE')]
     finally:
         E.cleanup(wd)
     if not cases:
         raise E.MachineryError('no cases emitted')
     items = []
-    for flags, f0, f in cases:
+    for flags, f0, f, submap in cases:
         cols0 = [rname(c[0]) for c in f0]
         # label position varies; the spec's frame lists it first
         order = cols0[1:]
@@ -75,7 +75,7 @@ def run_config(V, rng, tier, run_label, MV, AV, BV, flagsets):
         data = {rname(c[0]): list(c[1]) for c in f0}
         nrows = len(f0[0][1])
         rows = [[data[c][r] for c in order] for r in range(nrows)]
-        mapping = ';'.join(x for x in (['fa->fb'] if 'sub1' in flags else []) + (['fa<->fb'] if 'sub2' in flags else []))
+        mapping = ';'.join(BASE[a] + ('->' if op == 'one' else '<->') + BASE[b] for op, a, b in submap)
         items.append({'columns': order, 'rows': rows,
                       'args': {'heuristic': 'MI-numba-randomized', 'label_column': 'label', 'explode_multivalue_features': 'm' if 'multi' in flags else 'False',
                                'subfeature_mapping': mapping or 'False', 'interaction_order': 2 if 'interact' in flags else 1,
@@ -88,8 +88,8 @@ def run_config(V, rng, tier, run_label, MV, AV, BV, flagsets):
         if r is None or 'ok' not in r:
             V.violation(f'raises:chunk{ji}', f'compute_batch_ranking failed: {PC.failure_text(r)}', job['items'][0])
             continue
-        for (flags, f0, f), item, ob in zip(cases[ji * chunk:(ji + 1) * chunk], job['items'], r['ok']):
-            key = f'rows={item["rows"]} columns={item["columns"]} flags={sorted(flags)}'
+        for (flags, f0, f, submap), item, ob in zip(cases[ji * chunk:(ji + 1) * chunk], job['items'], r['ok']):
+            key = f'rows={item["rows"]} columns={item["columns"]} flags={sorted(flags)} mapping={item["args"]["subfeature_mapping"]}'
             if flags:
                 nontriv += 1
             if 'error' in ob:
@@ -141,22 +141,28 @@ def main():
     tier, seed, replay = E.tier_seed()
     V = E.Verdict(PID, tier, seed)
     rng = random.Random(seed * 256203221 + 11)
-    V.coverage['rule'] = ('TLC: FeatureConstruction.tla - every frame (label + multi-value column over {"", a, b, "a,b", "b-a"} + two categorical columns, 3 rows) x flag subsets, '
+    V.coverage['rule'] = ('TLC: FeatureConstruction.tla - every frame (label + multi-value column over {"", a, b, "a,b", "b-a"} and punctuated tokens + three categorical columns, 3 rows) x flag subsets x sub-feature mapping lists (several pairs sharing a seed column with different selectors), '
                           'one action per constructor in pipeline order; Additive, OneValuePerRow, MultiValueRule, OneSidedRule, TwoSidedRule, TargetControlIsLabel.  Every state is '
                           'replayed through the real compute_batch_ranking (scoring stage replaced by a capture of the constructed frame) and the constructed frame compared: '
                           'originals unchanged as prefix, every specified column present with the specified values, interaction columns by partition, control columns by name/shape. '
                           'non-trivial = distinct (frame, flags) with at least one constructor enabled')
     V.assumptions += ['the order of the appended columns is not constrained; unexpected additional columns are reported as drift only']
     q = tier == 'quick'
-    full = ['{}', '{"multi"}', '{"sub1"}', '{"sub2"}', '{"interact"}', '{"noise"}', '{"multi","sub1","sub2","interact","noise"}', '{"multi","interact"}', '{"sub1","sub2","noise"}', '{"sub2","interact"}']
+    AB = '{<<"one","A","B">>, <<"two","A","B">>}'
+    MAPS_OLD = '{<<<<"one","A","B">>, <<"two","A","B">>>>}'
+    MAPS_MULTI = ('{<<<<"one","A","B">>, <<"one","A","C">>>>, <<<<"two","A","B">>, <<"two","A","C">>>>, <<<<"one","B","A">>, <<"two","A","C">>, <<"one","A","B">>>>, '
+                  '<<<<"one","A","C">>>>, <<<<"two","C","B">>, <<"one","C","A">>>>}')
+    full = ['{}', '{"multi"}', '{"sub"}', '{"interact"}', '{"noise"}', '{"multi","sub","interact","noise"}', '{"multi","interact"}', '{"sub","noise"}', '{"sub","interact"}']
     if q:
-        runs = [('plain', '{"", "a", "a,b", "b-a"}', '{"a","b"}', '{"a","b"}', ['{"multi","sub1","sub2","interact","noise"}', '{"multi"}', '{"sub1","sub2"}']),
-                ('punctuated-tokens', '{"a.b", "axb", "c+", "c", "c+,c", "a|b", "a*"}', '{"a"}', '{"a","b"}', ['{"multi"}'])]
+        runs = [('plain', '{"", "a", "a,b", "b-a"}', '{"a","b"}', '{"a","b"}', '{"x"}', MAPS_OLD, ['{"multi","sub","interact","noise"}', '{"multi"}', '{"sub"}']),
+                ('punctuated-tokens', '{"a.b", "axb", "c+", "c", "c+,c", "a|b", "a*"}', '{"a"}', '{"a","b"}', '{"x"}', MAPS_OLD, ['{"multi"}']),
+                ('mappings', '{"a"}', '{"a","b"}', '{"a","b"}', '{"x","y"}', MAPS_MULTI, ['{"sub"}'])]
     else:
-        runs = [('plain', '{"", "a", "b", "a,b", "b-a", "c-"}', '{"a","b"}', '{"a","b"}', full),
-                ('punctuated-tokens', '{"a.b", "axb", "c+", "c", "c+,c", "a|b", "a*", "(a", "aa", "a.b-axb", "a"}', '{"a"}', '{"a","b"}', ['{"multi"}', '{"multi","interact"}'])]
-    for run_label, MV, AV, BV, flagsets in runs:
-        run_config(V, rng, tier, run_label, MV, AV, BV, flagsets)
+        runs = [('plain', '{"", "a", "b", "a,b", "b-a", "c-"}', '{"a","b"}', '{"a","b"}', '{"x"}', MAPS_OLD, full),
+                ('punctuated-tokens', '{"a.b", "axb", "c+", "c", "c+,c", "a|b", "a*", "(a", "aa", "a.b-axb", "a"}', '{"a"}', '{"a","b"}', '{"x"}', MAPS_OLD, ['{"multi"}', '{"multi","interact"}']),
+                ('mappings', '{"a", "a,b"}', '{"a","b"}', '{"a","b"}', '{"x","y"}', MAPS_MULTI, ['{"sub"}', '{"sub","multi","interact"}'])]
+    for run_label, MV, AV, BV, CV, MAPS, flagsets in runs:
+        run_config(V, rng, tier, run_label, MV, AV, BV, CV, MAPS, flagsets)
     V.coverage['exhaustive'] = True
     return V.finish()
 
